@@ -1,8 +1,14 @@
-//! C17 -- acknowledgements account for every received byte (refinement against AckModel).
+//! C17 -- acknowledgements account for every received byte (refinement against AckModel):
+//! World D (two real sessions announcing their configured windows to each other) and Worlds
+//! E / F (scripted peers announcing windows: small W exhaustively, re-announcements mid-stream).
 
 use crate::engine::{Ctx, RunResult};
-use crate::worlds::d;
+use crate::worlds::{d, e, f};
 
 pub fn run(ctx: &mut Ctx) -> RunResult {
-    d::run(ctx, d::DMode::C17)
+    match ctx.run_index % 3 {
+        0 => d::run(ctx, d::DMode::C17),
+        1 => e::run(ctx, e::EMode::C17),
+        _ => f::run(ctx, f::FMode::C17),
+    }
 }
